@@ -141,6 +141,8 @@ func TestC11(t *testing.T) {
 		var sharedExprs []hx.Expr
 		focusFn := rapid.SampledFrom(c11Builtins).Draw(t, "focusfn")
 		var refTabs []hx.Table
+		// the shared list of grouping columns names a column twice, at the end or in the middle
+		gbNames := rapid.SampledFrom([][]string{{"i1", "e1", "i1"}, {"i1", "i1", "e1"}, {"e1", "i1", "i1", "e1"}, {"i1", "e1", "e1", "i1"}}).Draw(t, "gbnames")
 		inListExtra := rapid.SampledFrom([]int{0, 0, 17, 20, 50, 115, 250}).Draw(t, "inlistextra")
 		inListSeed := rapid.Uint64().Draw(t, "inlistseed")
 		mkFamily := func(first bool) family {
@@ -184,7 +186,7 @@ func TestC11(t *testing.T) {
 			}
 			f.csvOrder = []string{"i1", "id", "s1", "f1", "e1"}
 			f.csvCols = csv.Columns(f.csvOrder)
-			f.gbCols = groupby.Columns("i1", "e1", "i1")
+			f.gbCols = groupby.Columns(append([]string(nil), gbNames...)...)
 			f.aggs = []qframe.Aggregation{{Fn: "sum", Column: "i1"}, {Fn: "max", Column: "f1"}}
 			f.inInts = []int{7, -3, 64, 2, 0, 5, -1, 3, 1000, 1, -2, 8, 4, 3, -1000, 6}
 			f.inStrs = []string{"b", "ab", "a", "", "abc", "B", "zz", "A", "c", "ba", "aB", "b%", "Ab", "a b", "x"}
